@@ -82,6 +82,12 @@ FirstFailing(m, v, now) == LET F == Failing(m, v, now) IN
                            IF F = {} THEN "-" ELSE Conjuncts[CHOOSE i \in F : \A j \in F : i <= j]
 Sig(m, v, now) == m \o ":" \o FirstFailing(m, v, now)
 
+\* ---------------------------------------------------------------- in-memory protection windows
+\* every nomination at instant t protects the node while now < t + window; a node nominated several times is
+\* protected until the LATEST of these expiries (a re-nomination extends the window, it never shortens it and an
+\* earlier one never masks a later one).  noms = set of nomination instants; -1 = never nominated
+NominatedUntil(noms, window) == IF noms = {} THEN -1 ELSE (CHOOSE t \in noms : \A u \in noms : u <= t) + window
+
 \* ---------------------------------------------------------------- Consolidatable condition
 \* Consolidatable may become True only on an initialized NodeClaim of a dynamic pool with
 \* consolidateAfter set, once consolidateAfter has elapsed since the last pod event (since
@@ -130,7 +136,7 @@ ViewOf(cand, W, G) ==
         deleting |-> claim.exists /\ (claim.deleting \/ claim.instanceTerminating = "True"),
         nodeDeleting |-> node.exists /\ node.deleting,
         marked |-> (names \cap G.marked) # {},
-        nominatedUntil |-> IF noms = {} THEN -1 ELSE (CHOOSE t \in noms : \A u \in noms : u <= t) + G.window,
+        nominatedUntil |-> NominatedUntil(noms, G.window),
         nodeDnd |-> node.exists /\ node.dndKind = "true",
         poolLabel |-> poolName # "-", poolKnown |-> pool.exists,
         static |-> pool.exists /\ pool.static, caSet |-> pool.exists /\ pool.consolidateAfter >= 0,
